@@ -893,6 +893,7 @@ class TimePDF(
             raise TypeError(
                 'The livetime property must be an instance of Livetime!')
         self._livetime = lt
+        self._update_S()
 
     @property
     def time_flux_profile(self):
@@ -909,6 +910,7 @@ class TimePDF(
                 'TimeFluxProfile! '
                 f'Its current type is {classname(profile)}!')
         self._time_flux_profile = profile
+        self._update_S()
 
     def __str__(self):
         """Pretty string representation of the time PDF.
@@ -923,6 +925,14 @@ class TimePDF(
         )
 
         return s
+
+    def _update_S(self):
+        """Re-calculates the sum, S, of the time flux profile integrals during
+        the detector on-time intervals, in case the live-time and the time flux
+        profile are set.
+        """
+        if hasattr(self, '_livetime') and hasattr(self, '_time_flux_profile'):
+            self._S = self._calculate_sum_of_ontime_time_flux_profile_integrals()
 
     def _calculate_sum_of_ontime_time_flux_profile_integrals(self):
         """Calculates the sum, S, of the time flux profile integrals during the
